@@ -353,7 +353,7 @@ func cmdCheck(args []string) int {
 		}
 		return baseTO
 	}
-	sres := solveAll(jobs, timeoutFor, seed, agree, 10)
+	sres := solveAll(jobs, timeoutFor, seed, agree, 16)
 	known := loadKnown()
 	violations := 0
 	rc := 0
